@@ -1,5 +1,6 @@
 import GdcVerif.Driver.Util
 import GdcVerif.Spec.T81H
+import GdcVerif.Spec.T81HStream
 import GdcVerif.Model.JpegLossless
 /-!
   Driver ops of the T.81 Annex H specification (C13):
@@ -39,6 +40,10 @@ def step? : List String → Option String
         | none => none
       "ok " ++ ",".intercalate ent
     | none => "bad-op"
+  | ["t81-stream-dec", hx] =>      -- specDecode → ok w h P plane|plane|… | err
+    some <| match T81H.specDecode (hexToBytes hx) with
+    | some im => s!"ok {im.width} {im.height} {im.precision} " ++ "|".intercalate (im.planes.map intsToStr)
+    | none => "err"
   | ["t81-td", b] =>
     some <| match b.toNat? with
     | some b => match T81H.td b with
